@@ -53,7 +53,7 @@ def value_expr(view, acc, ty):
     if t == 'Option<MultiArch>': return 'Some(MultiArch::Same)', 'None'
     if t == 'MultiArch': return 'MultiArch::Foreign', None
     if t == 'bool': return 'true', None
-    if t == 'usize': return '4242usize', None
+    if t == 'usize': return '5_368_709_120usize', None   # (above u32::MAX)
     if t == 'debversion::Version': return '"1:1.0~rc1-1".parse::<debversion::Version>().unwrap()', None
     if t == 'Vec<String>': return 'vec!["a".to_string(), "b".to_string()]', None
     if t == '&[&str]': return '&["a", "b"][..]', None
